@@ -6,6 +6,7 @@ import MemVerif.Drv.Pool
 import MemVerif.Model.Debug
 import MemVerif.Model.ExcSafe
 import MemVerif.Model.Joint
+import MemVerif.Model.Compose
 /-!
 Line-protocol driver: reads one operation per line on stdin, runs the executable model, prints the
 model's result in the harness' canonical format. `tools/` diff the two streams.
@@ -104,9 +105,50 @@ def jtLine (args : List String) : Option String :=
       some s!"ok {" ".intercalate offs} top={j.top - obj} left={j.capacityLeft} release={j.releaseSize objSize}"
   | _ => none
 
+/-- prefix form of a composition: `L <i> <a|n>` | `fb x y` | `al <m> x` | `tr x` | `sg <max> x y` | `st x` | `any x` -/
+def parseExpr : Nat → List String → Option (AExpr × List String)
+  | 0, _ => none
+  | fuel + 1, ts =>
+    match ts with
+    | "L" :: i :: k :: rest => some (.leaf (nat! i) (k = "a"), rest)
+    | "fb" :: rest =>
+      (parseExpr fuel rest).bind fun (d, r1) => (parseExpr fuel r1).map fun (f, r2) => (.fallback d f, r2)
+    | "al" :: m :: rest => (parseExpr fuel rest).map fun (a, r) => (.aligned (nat! m) a, r)
+    | "tr" :: rest => (parseExpr fuel rest).map fun (a, r) => (.tracked a, r)
+    | "sg" :: m :: rest =>
+      (parseExpr fuel rest).bind fun (x, r1) => (parseExpr fuel r1).map fun (y, r2) => (.segregator (nat! m) x y, r2)
+    | "st" :: rest => (parseExpr fuel rest).map fun (a, r) => (.storage a, r)
+    | "any" :: rest => (parseExpr fuel rest).map fun (a, r) => (.anyRef a, r)
+    | _ => none
+
+def callsStr (l : List LeafCall) : String := " ".intercalate (l.map LeafCall.str)
+def trackStr (l : List TrackEv) : String := " ".intercalate (l.map TrackEv.str)
+
+/-- C08/C09: one user-level operation through the current composition; returns (result, leaf calls, tracker events) -/
+def cmpLine (e : AExpr) (args : List String) (answers : List Bool) : Option (String × String × String) :=
+  let owner (ts : List String) : Nat := nat! ((hdr ts "owner").getD "0")
+  let doAlloc (t : Bool) (r : Req) : String × String × String :=
+    let x := route t e r answers
+    ((if x.ok then "ok" else if t then "throw" else "null"), callsStr x.calls, trackStr x.track)
+  let doDealloc (t : Bool) (r : Req) (o : Nat) : String × String × String :=
+    let (c, ok, tr) := release t e r o
+    ((if t then "done" else if ok then "true" else "false"), callsStr c, trackStr tr)
+  let mk (a c s al : String) : Req := if a = "1" then Req.array (nat! c) (nat! s) (nat! al) else Req.node (nat! s) (nat! al)
+  match args with
+  | ["alloc", a, c, s, al] => some (doAlloc true (mk a c s al))
+  | ["try_alloc", a, c, s, al] => some (doAlloc false (mk a c s al))
+  | "dealloc" :: a :: c :: s :: al :: rest => some (doDealloc true (mk a c s al) (owner rest))
+  | "try_dealloc" :: a :: c :: s :: al :: rest => some (doDealloc false (mk a c s al) (owner rest))
+  | ["std_alloc", n, s, al] => some (doAlloc true (stdReq (nat! n) (nat! s) (nat! al)))
+  | "std_dealloc" :: n :: s :: al :: rest => some (doDealloc true (stdReq (nat! n) (nat! s) (nat! al)) (owner rest))
+  | ["mra_alloc", b, al, mx] => some (doAlloc true (mraReq (nat! b) (nat! al) (nat! mx)))
+  | "mra_dealloc" :: b :: al :: mx :: rest => some (doDealloc true (mraReq (nat! b) (nat! al) (nat! mx)) (owner rest))
+  | _ => none
+
 structure DState where
   stack : StackSt := {}
   pool : PoolSt := {}
+  expr : Option AExpr := none
 
 /-- one trace line in, the model's line out -/
 def step (ds : DState) (line : String) : DState × String :=
@@ -118,6 +160,10 @@ def step (ds : DState) (line : String) : DState × String :=
       match arith fn args with
       | some r => (ds, s!"arith {" ".intercalate (fn :: args)} => {r}")
       | none => (ds, s!"bad-op {line}")
+  | "cmpexpr" :: rest =>
+      match parseExpr 64 rest with
+      | some (e, []) => ({ ds with expr := some e }, line.trimAscii.toString)
+      | _ => (ds, s!"bad-op {line}")
   | "header" :: rest =>
       let subj := (hdr rest "subject").getD ""
       ({ ds with stack := { cfg := parseCfg rest, subject := subj }, pool := { cfg := parseCfg rest } },
@@ -136,6 +182,14 @@ def step (ds : DState) (line : String) : DState × String :=
       else if subj = "static" then
         let (st, res, up, sts) := staticStep ds.stack rest
         fin st (res, up, sts)
+      else if subj = "cmp" then
+        match ds.expr with
+        | none => (ds, s!"bad-op {line}")
+        | some e =>
+          let answers : List Bool := (toks (secs.getD 1 "")).map fun t => t == "1"
+          match cmpLine e rest answers with
+          | some (res, calls, tr) => (ds, mkLine (secs.getD 0 "") (secs.getD 1 "") res calls tr)
+          | none => (ds, s!"bad-op {line}")
       else if subj = "sp" then
         match spLine rest with
         | some r => (ds, mkLine (secs.getD 0 "") "" r "" "-")
